@@ -20,6 +20,7 @@
   marker_free_same_results
   inline_real_eq_runtime_partial
   guard_leaves_only_cyclic
+  inline_seq_eq_runtime_partial
 -/
 import Genshi.Lemmas.InclErase
 import Genshi.Lemmas.InclGuard
@@ -70,6 +71,66 @@ theorem inline_eq_runtime_partial (T : List Name) (files : Files) (hH : inH T fi
       simp [RRel]
     · intro h; exact h.symm
     · intro h _; exact h.symm
+
+/-- one render on a loader with an arbitrary history: whatever prepared templates the cache holds
+(prepared earlier under other guard sets), the outcome equals the run-time mode's, and the cache
+stays a cache of prepared forms -/
+theorem renderOn_eq {T : List Name} {files : Files} (hH : inH T files = true) (fuel : Nat)
+    (c : Cache) (hc : CacheInv T files c) (q : Req) :
+    (renderOn .inlineM files fuel c q).1 = (renderOn .runtime files fuel [] q).1 ∧
+    CacheInv T files (renderOn .inlineM files fuel c q).2 := by
+  obtain ⟨entry, kind, data⟩ := q
+  have hl := loadOK_of_inH hH entry kind c hc
+  simp only [renderOn, loadT]
+  cases hraw : loadRaw files entry kind with
+  | fuel => simp [hraw] at hl
+  | err e =>
+    simp only [hraw] at hl
+    simp [hl, hc]
+  | ok body =>
+    simp only [hraw] at hl
+    obtain ⟨body', c', hli, hp, hc'⟩ := hl
+    simp only [hli, Res.map_ok, Res.bind_ok]
+    have h0 : StRel T files { St.init data with cache := [] } { St.init data with cache := c' } :=
+      ⟨rfl, rfl, .nil, .nil, hc'⟩
+    have := simL (loadOK_of_inH hH) (sim hH fuel) hp .full _ _ (fun _ => rfl) h0
+    revert this
+    cases renderL .runtime files (render .runtime files fuel) Rng.full body { St.init data with cache := [] } <;>
+      cases renderL .inlineM files (render .inlineM files fuel) Rng.full body' { St.init data with cache := c' } <;>
+      simp [RRel, hc]
+    · intro h; exact h.symm
+    · intro h hs; exact ⟨h.symm, hs.cache⟩
+
+/-- any number of renders through one loader: with the prepared-template cache carried from
+request to request (so later entries meet templates that were prepared inside other templates),
+inline mode answers every request like run-time mode does -/
+theorem inline_seq_eq_runtime_partial (T : List Name) (files : Files) (hH : inH T files = true)
+    (fuel : Nat) (qs : List Req) :
+    renderSeq .inlineM files fuel [] qs = renderSeq .runtime files fuel [] qs := by
+  have key : ∀ (qs : List Req) (c : Cache), CacheInv T files c →
+      renderSeq .inlineM files fuel c qs = renderSeq .runtime files fuel [] qs := by
+    intro qs
+    induction qs with
+    | nil => intro c _; rfl
+    | cons q qs ih =>
+      intro c hc
+      have h := renderOn_eq hH fuel c hc q
+      have hrt : (renderOn .runtime files fuel [] q).2 = [] := by
+        obtain ⟨entry, kind, data⟩ := q
+        simp only [renderOn, loadT]
+        cases hraw : loadRaw files entry kind with
+        | fuel => rfl
+        | err e => rfl
+        | ok body =>
+          simp only [Res.map_ok, Res.bind_ok]
+          have := render_keeps_cache_runtime files fuel .full body { St.init data with cache := [] }
+          cases hx : renderL .runtime files (render .runtime files fuel) Rng.full body { St.init data with cache := [] } with
+          | fuel => rfl
+          | err e => rfl
+          | ok r => simp only; rw [hx] at this; exact this
+      simp only [renderSeq]
+      rw [h.1, ih _ h.2, hrt]
+  exact key qs [] (by intro n b h; simp at h)
 
 /-- recursive and mutually recursive includes terminate under the same conditions in both modes:
 one mode runs out of any amount of fuel iff the other does, and one mode reaches a result with
